@@ -3,7 +3,7 @@ package main
 
 import (
 	"verif/harness/drive"
-	_ "verif/harness/drive/blockexec"
+	_ "verif/harness/drive/minerexec"
 )
 
 func main() { drive.Main() }
